@@ -81,7 +81,8 @@ Proof. unfold new_pat. destruct (N.ltb_spec (len b) 13); [discriminate|].
 
 (* ---- the accessors on ANY byte string (not only on results of NewPAT) ---- *)
 Lemma num_programs_total p : exists n, num_programs p = Ok n.
-Proof. unfold num_programs, num_programs_with. destruct (section_length_value p) as [sl ->]. cbn [bind]. eauto. Qed.
+Proof. unfold num_programs. destruct (section_length_value p) as [sl ->]. destruct (pointer_field_total p) as [pf ->].
+  cbn [bind]. eauto. Qed.
 
 Lemma loop_total n : forall pat counter m, (n = 0%nat \/ counter + 4 * N.of_nat n + 1 <= len pat) ->
   exists m', program_map_loop n pat counter m = Ok m'.
@@ -93,12 +94,16 @@ Proof. induction n as [|k IH]; intros pat counter m H; [cbn; eauto|].
   destruct (idx_lt pat (counter + 4) ltac:(lia)) as [d ->]. cbn [bind].
   apply IH. destruct k; [left; reflexivity|right; lia]. Qed.
 
-(* the reads of ProgramMap stay inside min(section_length, len) *)
+(* the reads of ProgramMap (3223166: from 8 + pointer_field on) stay inside the slice, because NumPrograms clips
+   section_length to len - pointer_field: 8 + pf + 4n <= pf + clipped - 1 <= len - 1.  Any bytes, pointer_field
+   up to 255, also len < 13 + pointer_field (the clipped length is then small or negative and n = 0) *)
 Lemma program_map_total p : exists m, program_map p = Ok m.
-Proof. unfold program_map, program_map_with, num_programs_with. destruct (section_length_value p) as [sl ->]. cbn [bind].
+Proof. unfold program_map, num_programs. destruct (pointer_field_total p) as [pf ->]. cbn [bind].
+  destruct (section_length_value p) as [sl ->]. cbn [bind].
   apply loop_total. rewrite zlen_len.
-  set (slc := if (Z.of_N (len p) <? Z.of_N sl)%Z then Z.of_N (len p) else Z.of_N sl).
-  assert (Hc : (slc <= Z.of_N (len p))%Z) by (unfold slc; destruct (Z.ltb_spec (Z.of_N (len p)) (Z.of_N sl)); lia).
+  set (slc := if (Z.of_N (len p) - Z.of_N pf <? Z.of_N sl)%Z then (Z.of_N (len p) - Z.of_N pf)%Z else Z.of_N sl).
+  assert (Hc : (slc <= Z.of_N (len p) - Z.of_N pf)%Z)
+    by (unfold slc; destruct (Z.ltb_spec (Z.of_N (len p) - Z.of_N pf) (Z.of_N sl)); lia).
   destruct (Z.le_gt_cases 0 (slc - 2 - 1 - 1 - 1 - 4)) as [Hp|Hn].
   - rewrite Z.quot_div_nonneg by lia.
     destruct (Z.eq_dec ((slc - 2 - 1 - 1 - 1 - 4) / 4) 0) as [E|E]; [left; rewrite E; reflexivity|right].
@@ -107,7 +112,7 @@ Proof. unfold program_map, program_map_with, num_programs_with. destruct (sectio
     lia. Qed.
 
 Lemma spts_pmt_pid_total p : safe (spts_pmt_pid p).
-Proof. unfold spts_pmt_pid, spts_pmt_pid_with. fold (num_programs p). fold (program_map p).
+Proof. unfold spts_pmt_pid.
   destruct (num_programs_total p) as [n ->]. cbn [bind]. destruct (1 <? n)%Z; [apply safe_err|].
   destruct (program_map_total p) as [m ->]. cbn [bind]. destruct m as [|[k v] m]; [apply safe_err|apply safe_ok]. Qed.
 
@@ -152,6 +157,18 @@ Definition pkt_no_room : bytes := [71; 64; 0; 48; 183] ++ repeat 255 183.
 Lemma new_pat_packet_pinned_refuted :
   len pkt_no_room = 188 /\ new_pat_pinned pkt_no_room = Ok [] /\ num_programs_pinned [] = Panic /\
   new_pat pkt_no_room = Err E.InvalidPATLength.
+Proof. repeat split; vm_compute; reflexivity. Qed.
+
+(* the clip of 3223166 at its edges: pointer_field 255 on a 13-byte PAT object (nothing follows the pointer: the clipped
+   length is negative, no entry is read); a section_length (1023) that runs past the slice behind pointer_field 5
+   (clipped to len - 5 = 15: one entry, read at offsets 14..17 of 20) *)
+Definition clip_b1 : bytes := 255 :: repeat 0 12.
+Definition clip_b2 : bytes := [5; 1; 2; 3; 4; 5; 0; 0xB3; 0xFF; 0; 1; 0xC1; 0; 0; 0; 7; 0xE1; 0x23; 9; 9].
+Lemma pointer_clip_examples :
+  new_pat clip_b1 = Ok clip_b1 /\ num_programs clip_b1 = Ok (-62)%Z /\ program_map clip_b1 = Ok [] /\
+  spts_pmt_pid clip_b1 = Err E.Other /\
+  new_pat clip_b2 = Ok clip_b2 /\ num_programs clip_b2 = Ok 1%Z /\ program_map clip_b2 = Ok [(7, 0x123)] /\
+  spts_pmt_pid clip_b2 = Ok 0x123.
 Proof. repeat split; vm_compute; reflexivity. Qed.
 
 Lemma psi_helpers_total b :
